@@ -10,4 +10,4 @@ replay = travcheck.make_replay(plans)
 
 
 def run(ctx: common.Context) -> None:
-    travcheck.run_property(ctx, plans, replay)
+    travcheck.run_property(ctx, plans, replay, quick_s=210)
